@@ -13,6 +13,8 @@
 #include <cstdint>
 #include <cstring>
 
+#include "../config/xsimd_verif_hooks.hpp"
+
 namespace xsimd
 {
     namespace detail
@@ -344,6 +346,7 @@ namespace xsimd
                 { /* need recomputation */
                     for (k = 1; iq[jk - k] == 0; k++)
                         ; /* k = no. of terms needed */
+                    XSIMD_VERIF_LOOP_TICK(); /* one tick per recomputation round (the goto below) */
 
                     for (i = jz + 1; i <= jz + k; i++)
                     { /* add q[jz+1] to q[jz+k] */
@@ -364,6 +367,7 @@ namespace xsimd
                 q0 -= 24;
                 while (iq[jz] == 0)
                 {
+                    XSIMD_VERIF_LOOP_TICK();
                     jz--;
                     q0 -= 24;
                 }
